@@ -223,3 +223,18 @@ def if_chain(stmts, i):
             rest = rest[1:]
             continue
         return branches, rest
+
+
+def canon_tree(tree):
+    """apply to a reference fragment the syntactic canonicalisations the program model applies to the source when it loads it (subscripts, comparisons)"""
+    from sa import model as _m
+    _m._canonicalise_subscripts(tree)
+    _m._canonicalise_comparisons(tree)
+    return tree
+
+
+def canon_text(text, mode="eval"):
+    """canonical spelling of an expression / statement text (see canon_tree): `x[i, :]` -> `x[i]`, `0 < x` -> `x > 0`"""
+    t = ast.parse(text, mode=mode)
+    canon_tree(t)
+    return ast.unparse(t.body if mode == "eval" else t)
